@@ -414,6 +414,14 @@ func (e *SpecEnv) binary(n *ast.BinaryExpr) (SV, error) {
 		}
 		return SV{T(raw, "Int"), typ}, nil
 	}
+	// s == nil on a slice: the nil slice is the zero slice value, as in the code
+	if (n.Op == token.EQL || n.Op == token.NEQ) && l.T.Sort != r.T.Sort {
+		if l.T.Sort == "Slice" && r.T.S == "0" {
+			r.T = T("(mk_slice 0 0 0 0)", "Slice")
+		} else if r.T.Sort == "Slice" && l.T.S == "0" {
+			l.T = T("(mk_slice 0 0 0 0)", "Slice")
+		}
+	}
 	switch n.Op {
 	case token.LAND:
 		return b("and")
